@@ -92,5 +92,12 @@ CHECKS = {
                      "object are flattened, param index keys cannot be extracted, top-level non-VCALENDAR filters): for all other filters and contents the answer after any number of "
                      "repetitions, index resets and interleaved writes equalled the naive evaluation on a cold store.",
                 note="Trusted: the naive evaluation path of the same code as reference (RFC conformance is C11); wrapper-based attribution of answers to the index path (WSGI shards)."),
+    "C04": dict(level="fault_enumeration", design="DESIGN.md section 4 C04",
+                technique="runtime fault injection: crash-point enumeration - the real store operation is re-run once per file-system mutation with os._exit immediately before it (audit-hook failpoint), plus torn-file variants for every file open for writing at that instant; each crash state is re-opened and audited (own parser, git fsck/rev-list); SIGKILL of acknowledged-write loops in the thorough tier",
+                text="Held on every enumerated crash point: for create / replace / delete / property-set operations on tree-git, bare-git and vdir stores (both metadata back ends, "
+                     "0/1/4 prior members) every state left by dying before any of the operation's file-system mutations - and with files that were open for writing cut to zero or "
+                     "half - re-opened, all members parsed, the target was old or new, bystanders and earlier writes were intact and git found no missing object; all acknowledged "
+                     "writes survived hundreds of SIGKILLs at random instants.",
+                note="Trusted: process-death model (kernel-held data survives, user-space buffers do not; no power-loss reordering); audit events enumerate the mutations (pure-Python stores)."),
 }
 NOT_APPLICABLE = {}
